@@ -13,7 +13,7 @@ import itertools, json, random
 from core import Case
 
 PROP = 'C13'
-COQ_TARGETS = ['theories/BipFacts.vo', 'theories/IpNetFacts.vo', 'theories/BipDelivFacts.vo', 'theories/BipDelivTie.vo', 'theories/CascadeFacts.vo', 'theories/CascadeStep.vo']
+COQ_TARGETS = ['theories/BipFacts.vo', 'theories/IpNetFacts.vo', 'theories/BipDelivFacts.vo', 'theories/BipDelivTie.vo', 'theories/CascadeFacts.vo', 'theories/CascadeStep.vo', 'theories/BipLifeFacts.vo']
 COQ_IMPORTS = 'From Bac Require Import Base Bip IpNet BipDeliv.'
 RULE = ('node cases: every B/IP node kind x every BVLL function (0..11) x unicast/broadcast arrival x state grid (BDT with/without self, '
         '/32 and /24 masks, FDT 0..3 entries incl. the sender, foreign status -2/-1/0/0x30, matching / non-matching BBMD address, '
@@ -28,6 +28,9 @@ RULE = ('node cases: every B/IP node kind x every BVLL function (0..11) x unicas
         '(2..4 devices on one BBMD stopping 1..4 s apart, table read + broadcast in every second, grace must not depend on other entries), the same node broadcasting identical octets 2..3 times '
         '(same instant / later / other traffic in between; copies counted per broadcast event), and re-registration 0.3..7 s after unregistering or a cable pull '
         '(broadcast + Read-FDT in each following second).  '
+        'round 6: long runs (an undisturbed device, TTL 2..45 s incl. non-divisors of 30, watched for 2*(TTL+30)+TTL s with a broadcast to or from it in every second), '
+        'same-tick expiry (2..5 entries of one table whose time runs out in the same 1 s tick: registered in one second with one TTL and cut after the same renewal, and/or unregistered in the matching second; '
+        'table read + broadcast in every second), tick cases on tables of 2..6 entries with 0..3 s left in every position, same-TTL group histories, and long network scripts (net-long).  '
         'non-trivial = the event produces at least one outbound frame, delivery or state change; distinct by (layer, input).')
 TRUSTED = ['models coq/theories/Bip.v (after bvllservice.py:342-1072) and IpNet.v (after vlan.py:28-282) written by hand; tie = correspondence',
            'the harness multiplexer shim (after bvllservice.UDPMultiplexer / tests/test_bvll/helpers.py FauxMultiplexer) replaces UDP sockets',
@@ -577,6 +580,12 @@ def node_cases(rng, tier):
     for rem in (0, 1, 2, 5, 6):
         st = (me, [], [(A('10.0.9.9') + (30, rem)), (A('10.0.8.8') + (1, 1)), (A('10.0.7.7') + (0, 2))], True)
         out.append(node_case('bbmd', st, ('tick',), tag='tick-boundary'))
+    # several entries running out in the same tick, in every position (process_task walks the table while deleting from it)
+    devs = [A('10.0.9.%d' % k) for k in range(40, 46)]
+    for _ in range(60 if tier == 'thorough' else 20):
+        n = rng.randrange(2, 7)
+        fdt = [devs[k] + (rng.choice([0, 1, 5, 30]), rng.choice([0, 1, 1, 1, 2, 2, 3])) for k in range(n)]
+        out.append(node_case('bbmd', (me, [], fdt, True), ('tick',), tag='tick-multi'))
     # duplicate FDT rows (not reachable, but delete/register scan order is visible on them)
     dup = (me, [], [A('10.0.9.9') + (30, 7), A('10.0.8.8') + (5, 3), A('10.0.9.9') + (60, 50)], True)
     out.append(node_case('bbmd', dup, ('conf', A('10.0.1.9'), me, (8,) + A('10.0.9.9')), tag='dup-delete'))
@@ -979,7 +988,47 @@ def net_cases(rng, tier):
         script = gen_script(rng, layout, rng.randrange(6, 22))
         # an unregistered foreign device that receives a Result raises (TypeError): keep those cases, they are compared by class
         out.append(net_case(layout, script, 'net-wf' if wf else 'net-any'))
+    # long lives: undisturbed devices through several renewals and beyond first-ack + TTL + 30 s, broadcasts to and from
+    # them every few seconds; the devices' two timers are part of the final state
+    for k in range(30 if tier == 'thorough' else 8):
+        layout = long_layout(rng)
+        fors, bbmds = idx(layout, 'foreign'), idx(layout, 'bbmd')
+        senders = [i for i, n in enumerate(layout['nodes']) if n['kind'] != 'probe']
+        T = Times(rng)
+        script, ttls = [], []
+        for f in fors:
+            ttls.append(rng.choice(LONG_TTLS[:6]))
+            script.append((T.after(rng.choice([0, 400])), ('register', f, (layout['nodes'][layout['nodes'][f]['home']]['ip'], PORT), ttls[-1])))
+        horizon = T.t + (2 * (max(ttls) + 30) + max(ttls) + 6) * 1000
+        pid = 0x5800
+        while T.t < horizon:
+            pid += 1
+            script.append((T.after(rng.choice([900, 1900, 2900, 4700])), ('bcast', rng.choice(fors + [rng.choice(senders)]), payload_id(pid.to_bytes(2, 'big')))))
+        out.append(net_case(layout, split_gaps(script, T), 'net-long'))
     return out
+
+
+LONG_TTLS = [2, 3, 4, 7, 11, 13, 20, 45]
+
+
+def long_layout(rng):
+    """two BBMD subnets (two-hop tables, 1..2 ordinary nodes each), one foreign device on a BBMD-less subnet and, half of
+    the time, one more that sits inside BBMD subnet 0 and is registered with BBMD 1"""
+    lans = [(ip_int('10.1.1.0'), 24), (ip_int('10.2.2.0'), 24), (ip_int('10.200.0.0'), 24)]
+    nodes, bb = [], []
+    for i in range(2):
+        nodes.append({'lan': i, 'ip': lans[i][0] + 2, 'kind': 'bbmd', 'bdt': []})
+        bb.append(len(nodes) - 1)
+        for j in range(rng.randrange(1, 3)):
+            nodes.append({'lan': i, 'ip': lans[i][0] + 10 + j, 'kind': 'simple'})
+    for bi in bb:
+        nodes[bi]['bdt'] = [(nodes[bj]['ip'], PORT, M32) for bj in bb]
+    nodes.append({'lan': 2, 'ip': lans[2][0] + 40, 'kind': 'foreign', 'home': rng.choice(bb)})
+    if rng.random() < 0.5:
+        nodes.append({'lan': 0, 'ip': lans[0][0] + 41, 'kind': 'foreign', 'home': bb[1]})
+    for i in range(3):
+        nodes.append({'lan': i, 'ip': lans[i][0] + 90, 'kind': 'probe'})
+    return {'lans': lans, 'nodes': nodes, 'style': 'two-hop', 'wf': True, 'fd_inside': True}
 
 
 # ------------------------------------------------------------------ FDT level: histories on one BBMD
@@ -1054,6 +1103,24 @@ def hist_cases(rng, tier):
         for _ in range(T + 7):
             evs += [('tick',), ('conf', A('10.0.1.90'), me, (6,))]
         out.append(hist_case((me, [], [], True), evs, 'fdt-window'))
+    # groups of devices whose entries run out in the same tick: same TTL registered between two ticks, or a later
+    # registration with a TTL shorter by the number of ticks in between; table read and a broadcast after every tick
+    devs = [A('10.0.9.%d' % k) for k in range(40, 46)]
+    for _ in range(40 if tier == 'thorough' else 12):
+        T = rng.choice([0, 1, 2, 3, 4])
+        evs = []
+        group = rng.sample(devs, rng.randrange(2, 6))
+        lag = 0
+        for g in group:
+            if lag < T and rng.random() < 0.3:
+                evs.append(('tick',))
+                lag += 1
+            evs.append(('conf', g, me, (5, T - lag)))
+        if rng.random() < 0.4:       # a bystander with a longer life in a random position
+            evs.insert(rng.randrange(len(evs) + 1), ('conf', A('10.0.9.60'), me, (5, 30)))
+        for _k in range(T + 7):
+            evs += [('tick',), ('conf', A('10.0.1.90'), me, (6,)), ('conf', A('10.0.1.10'), None, (11, payload_id(b'\x08')))]
+        out.append(hist_case((me, [], [], True), evs, 'fdt-sametick'))
     return out
 
 
@@ -1536,6 +1603,118 @@ def scen_reregister(rng, stats):
     return bk.failures
 
 
+def scen_long_run(rng, stats):
+    """An undisturbed foreign device (sometimes a second one inside a BBMD subnet) lives through several renewals: from the
+    registration until 2*(TTL+30)+TTL s later there is, in EVERY second, a broadcast to it (from an ordinary node / a BBMD /
+    the other device) or from it, and every fifth second a table read.  A device that keeps renewing is served all the time:
+    nothing that happened at the first acknowledgement may run out later."""
+    layout = long_layout(rng)
+    bk = Book(layout)
+    T = Times(rng)
+    nodes = layout['nodes']
+    fors = idx(layout, 'foreign')
+    senders = [i for i, n in enumerate(nodes) if n['kind'] != 'probe']
+    others = [i for i in senders if i not in fors]
+    ttls = []
+    for f in fors:
+        ttls.append(rng.choice(LONG_TTLS))
+        bk.step(T.after(rng.choice([0, 400])), ('register', f, (nodes[nodes[f]['home']]['ip'], PORT), ttls[-1]))
+    seconds = 2 * (max(ttls) + 30) + max(ttls) + 8
+    pid = 0x5000
+    for i in range(seconds):
+        pid += 1
+        o = rng.choice(fors) if i % 3 == 2 else rng.choice(others)
+        bk.broadcast(T.after(rng.choice([700, 1000, 1000, 1300]) if i else 300), o, payload_id(pid.to_bytes(2, 'big')))
+        stats['broadcasts'] += 1
+        if i % 5 == 4:
+            bk.read_tables(T.after(0), first_probe(layout), nodes[rng.choice(fors)]['home'])
+    stats['long-run-seconds'] += seconds
+    return bk.failures
+
+
+def scen_same_tick(rng, stats):
+    """2..5 entries of ONE table whose time runs out in the SAME 1 s tick: group B registers within one second with one TTL
+    and loses its cable right after the same renewal (second R), group A unregisters in second R+TTL (TTL-0 entry, 5 s
+    grace) -- all are due at tick R+TTL+5.  A broadcast and a table read in every inter-tick interval around it.  The grace
+    the BBMD grants is the same for every entry and listed = served in every interval, whatever their positions in the table."""
+    nf = rng.randrange(2, 6)
+    layout = {'lans': [(ip_int('10.1.1.0'), 24), (ip_int('10.200.0.0'), 24)], 'style': 'two-hop', 'wf': True,
+              'nodes': [{'lan': 0, 'ip': ip_int('10.1.1.2'), 'kind': 'bbmd', 'bdt': [(ip_int('10.1.1.2'), PORT, M32)]},
+                        {'lan': 0, 'ip': ip_int('10.1.1.10'), 'kind': 'simple'}]
+                       + [{'lan': 1, 'ip': ip_int('10.200.0.40') + j, 'kind': 'foreign'} for j in range(nf)]
+                       + [{'lan': 0, 'ip': ip_int('10.1.1.90'), 'kind': 'probe'}]}
+    bk = Book(layout)
+    B = (ip_int('10.1.1.2'), PORT)
+    fors = idx(layout, 'foreign')
+    probe = idx(layout, 'probe')[0]
+    ttl = rng.choice([1, 2, 3, 5, 8])
+    mode = rng.choice(['cut', 'unregister', 'mixed'])
+    group = {f: ('cut' if mode == 'cut' else 'unregister' if mode == 'unregister' else rng.choice(['cut', 'unregister'])) for f in fors}
+    order = list(fors)
+    rng.shuffle(order)                         # table order = registration order
+    r0 = rng.randrange(1, 4)
+    off = {f: 100 + 37 * k + rng.randrange(0, 30) for k, f in enumerate(order)}      # pairwise different, < 400 ms
+    events = []
+    for f in order:
+        if group[f] == 'cut':
+            events.append((r0 * 1000 + off[f], ('register', f, B, ttl)))
+        else:
+            events.append((rng.randrange(0, r0 + 1) * 1000 + off[f], ('register', f, B, rng.choice([ttl, 7, 30]))))
+    R = r0 + ttl * rng.randrange(1, 3)         # the renewal after which group B falls silent
+    X = R + ttl                                # the second in which group A unregisters
+    for k, f in enumerate(order):
+        if group[f] == 'cut':
+            events.append((R * 1000 + 700 + 13 * k, ('link', f, False)))
+        else:
+            events.append((X * 1000 + off[f] + 5, ('unregister', f)))
+    # one broadcast (ms 420..600) and one read (ms 620..680) per second, from second 0 until all must be gone
+    for sec in range(0, X + 12):
+        events.append((sec * 1000 + 420 + rng.randrange(0, 180), ('bcast!', sec)))
+        events.append((sec * 1000 + 620 + rng.randrange(0, 60), ('read!', sec)))
+    events.sort(key=lambda e: e[0])
+    assert len({t for t, _ in events}) == len(events)
+    first_absent, last_seen = {}, {}
+    fd_addrs = {(layout['nodes'][f]['ip'], PORT) for f in fors}
+    served = set()
+    for t, ev in events:
+        if ev[0] == 'bcast!':
+            recs = bk.step(t, ('bcast', 1, payload_id((0x7400 + ev[1]).to_bytes(2, 'big'))))
+            stats['broadcasts'] += 1
+            served = {(r[4], r[5]) for r in recs if r[0] == 2 and r[1] == 0 and r[6] == 4 and (r[2], r[3]) == B}
+        elif ev[0] == 'read!':
+            rows = bk.read_tables(t, probe, 0)
+            if rows is None:
+                continue
+            listed = {(ip, port) for ip, port, _t, _r in rows}
+            if served & fd_addrs != listed & fd_addrs:
+                bk.fail('listed-and-served-differ', at_ms=t, listed=sorted(listed), served=sorted(served))
+            for f in fors:
+                a = (layout['nodes'][f]['ip'], PORT)
+                if a in listed:
+                    last_seen[f] = t
+                    first_absent.pop(f, None)
+                elif f not in first_absent and f in last_seen:
+                    first_absent[f] = t
+        else:
+            bk.step(t, ev)
+    graces = {}
+    for f in fors:
+        last = bk.f[f]['last']
+        if last is None or f not in first_absent or f not in last_seen:
+            bk.fail('entry-never-expired' if f in last_seen else 'entry-never-listed', node=f, last=last)
+            continue
+        kind, t_reg, t_ttl = last
+        graces[f] = first_absent[f] // 1000 - t_reg // 1000 - t_ttl
+    if len(set(graces.values())) > 1:
+        bk.fail('grace-depends-on-other-entries', graces={str(f): g for f, g in graces.items()}, ttl={str(f): bk.f[f]['last'][2] for f in graces},
+                stopped={str(f): group[f] for f in fors}, order=order, same_tick=True)
+    if len(set(first_absent.values())) > 1:
+        bk.fail('same-deadline-different-expiry', first_absent_ms={str(f): v for f, v in first_absent.items()}, order=order,
+                stopped={str(f): group[f] for f in fors}, ttl=ttl)
+    stats['same-tick-entries'] += len(fors)
+    return bk.failures
+
+
 def _guard(fn, failures, stats, what, layout=None):
     """run one scenario; a forwarding loop (watchdog) is a failing input of the termination kind"""
     try:
@@ -1610,6 +1789,16 @@ def direct(rng, tier, focus=()):
             break
         _guard(lambda: scen_expiry_order(rng, stats), failures, stats, 'expiry-order')
         stats['expiry-order-runs'] += 1
+    for k in range(40 if big else 8):       # undisturbed devices over several renewal periods, a broadcast in every second
+        if late():
+            break
+        _guard(lambda: scen_long_run(rng, stats), failures, stats, 'long-run')
+        stats['long-runs'] += 1
+    for k in range(120 if big else 25):     # several entries of one table due in the same tick
+        if late():
+            break
+        _guard(lambda: scen_same_tick(rng, stats), failures, stats, 'same-tick')
+        stats['same-tick-runs'] += 1
     for d in list(focus)[:10]:
         if isinstance(d, dict) and d.get('layer') == 'net' and d['layout'].get('wf') and not late():
             _guard(lambda: scen_sweep(rng, d['layout'], stats), failures, stats, 'focus', d['layout'])
